@@ -55,15 +55,19 @@ GId(n, id) == IF n = GName THEN id ELSE Nil
 (* Index configurations.  A token stands for (metric, precision, memory);  *)
 (* the harness refines it further (M, efConstruction, text language).      *)
 (***************************************************************************)
-CfgPrec   == [e32 |-> "float32", c32 |-> "float32", e16 |-> "float16", ci8 |-> "int8", e32m |-> "float32", c32m |-> "float32"]
-CfgMetric == [e32 |-> "euclidean", c32 |-> "cosine", e16 |-> "euclidean", ci8 |-> "cosine", e32m |-> "euclidean", c32m |-> "cosine"]
-CfgMem    == [e32 |-> FALSE, c32 |-> FALSE, e16 |-> FALSE, ci8 |-> FALSE, e32m |-> TRUE, c32m |-> TRUE]
+\* c16 (cosine, float16) and ei8 (euclidean, int8) are configurations hnsw.New refuses
+CfgPrec   == [e32 |-> "float32", c32 |-> "float32", e16 |-> "float16", ci8 |-> "int8", e32m |-> "float32", c32m |-> "float32",
+              c16 |-> "float16", ei8 |-> "int8"]
+CfgMetric == [e32 |-> "euclidean", c32 |-> "cosine", e16 |-> "euclidean", ci8 |-> "cosine", e32m |-> "euclidean", c32m |-> "cosine",
+              c16 |-> "cosine", ei8 |-> "euclidean"]
+CfgMem    == [e32 |-> FALSE, c32 |-> FALSE, e16 |-> FALSE, ci8 |-> FALSE, e32m |-> TRUE, c32m |-> TRUE, c16 |-> FALSE, ei8 |-> FALSE]
 
 \* hnsw.New: which (metric, precision) pairs exist
 ValidPair(metric, prec) ==
   \/ prec = "float32"
   \/ prec = "float16" /\ metric = "euclidean"
   \/ prec = "int8"    /\ metric = "cosine"
+CfgValid(cfg) == ValidPair(CfgMetric[cfg], CfgPrec[cfg])
 
 (***************************************************************************)
 (* Metadata.  System keys written by the engine itself are ordinary keys   *)
@@ -397,7 +401,12 @@ KVDelete(k) ==
 \* VCreate journals VCREATE (carrying the maintenance config) before CreateVectorIndex validates
 \* (harmless: replay ignores a VCREATE for a name it already knows).
 VCreate(n, cfg, mc, al) ==
-  /\ IF Exists(n)
+  /\ IF ~CfgValid(cfg)
+     THEN \* refused before anything is journaled (33e6960; the record of a refused create used to shadow a later valid
+          \* create of the same name at replay, which keeps the first VCREATE record of a name)
+          /\ Log([op |-> "VCreate", n |-> n, cfg |-> cfg, mc |-> mc, al |-> al, res |-> "err"])
+          /\ UNCHANGED <<mem, file>>
+     ELSE IF Exists(n)
      THEN /\ Journal(<<CCreate(n, cfg, al, mc)>>)
           /\ Log([op |-> "VCreate", n |-> n, cfg |-> cfg, mc |-> mc, al |-> al, res |-> "err"])
           /\ UNCHANGED mem
@@ -726,7 +735,7 @@ Reopen ==
   /\ UNCHANGED <<snap, file, clock, dev, delat, dirty>>
 
 \* seeded start: index GName exists (first configuration of Cfgs) and holds every id
-SeedCfg == CHOOSE c \in Cfgs : TRUE
+SeedCfg == CHOOSE c \in Cfgs : CfgValid(c)
 SeedVec == CHOOSE v \in Vecs : TRUE
 SeedIds == SetToSeq(Ids)
 SeedIx == FoldLeft(LAMBDA ix, id : IxAdd(ix, id, SeedVec, NoMeta), NewIndex(SeedCfg, SeedMaint, Nil), SeedIds)
